@@ -106,8 +106,10 @@ class Stream:
     shard_size = 400
     coqc_timeout = 300
 
-    def prelude(self, ctx, findings):
-        """Extra Gallina definitions placed before the case list (e.g. the measured deviation cfg)."""
+    def prelude(self, ctx, findings, witness_terms):
+        """Extra Gallina definitions placed before the case list (e.g. the measured deviation cfg).
+        `witness_terms` maps finding id -> Gallina term of that finding's witness case as just observed
+        on the implementation (see `cfg_prelude`)."""
         return ""
 
     def generate(self, ctx, budget, focus=None):
@@ -196,7 +198,7 @@ def coq_build(coq_dir, targets, timeout=2400, jobs=NCPU):
     return rc == 0, out
 
 
-def coq_cone(coq_dir, prop_file):
+def coq_cone(coq_dir, prop_file, want_deps=False):
     """Transitive PV-internal dependencies (as .v paths) of a file, via coqdep."""
     files = coq_files(coq_dir)
     rc, out = _run(["coqdep", "-Q", ".", "PV"] + files, cwd=coq_dir, timeout=120)
@@ -219,7 +221,41 @@ def coq_cone(coq_dir, prop_file):
             continue
         seen.append(f)
         todo.extend(deps.get(f, []))
+    if want_deps:
+        return sorted(seen), deps
     return sorted(seen)
+
+
+def vo_fresh(coq_dir, cone, deps):
+    """Files of the cone whose .vo exists, is newer than the .v, and whose dependencies are all fresh."""
+    memo = {}
+
+    def fresh(f):
+        if f in memo:
+            return memo[f]
+        memo[f] = False
+        v = os.path.join(coq_dir, f)
+        vo = v[:-2] + ".vo"
+        try:
+            ok = os.path.getmtime(vo) >= os.path.getmtime(v)
+        except OSError:
+            ok = False
+        if ok:
+            for d in deps.get(f, []):
+                d = os.path.normpath(d)
+                if d == f:
+                    continue
+                try:
+                    if not fresh(d) or os.path.getmtime(os.path.join(coq_dir, d)[:-2] + ".vo") > os.path.getmtime(vo):
+                        ok = False
+                        break
+                except OSError:
+                    ok = False
+                    break
+        memo[f] = ok
+        return ok
+
+    return {f for f in cone if fresh(f)}
 
 
 def count_statements(coq_dir, files):
@@ -392,13 +428,43 @@ def explain_cases(ctx, stream, prelude, terms, tag):
 # known findings
 # --------------------------------------------------------------------------------------------
 def load_findings(prop_id):
-    path = os.path.join(VERIF, "known_findings.json")
-    try:
-        with open(path, encoding="utf-8") as f:
-            data = json.load(f)
-    except OSError:
-        return []
-    return [e for e in data if e.get("property") == prop_id]
+    """known_findings.json (maintained by hand, never written at run time) + known_findings.d/*.json"""
+    data = []
+    paths = [os.path.join(VERIF, "known_findings.json")] + sorted(glob.glob(os.path.join(VERIF, "known_findings.d", "*.json")))
+    for path in paths:
+        try:
+            with open(path, encoding="utf-8") as f:
+                d = json.load(f)
+            data.extend(d if isinstance(d, list) else [d])
+        except (OSError, ValueError):
+            continue
+    seen = set()
+    out = []
+    for e in data:
+        if e.get("property") == prop_id and e.get("id") not in seen:
+            seen.add(e.get("id"))
+            out.append(e)
+    return out
+
+
+def cfg_prelude(record_ctor_fields, findings, witness_terms, spec_fn, name="pv_cfg", case_type="pv_w_t"):
+    """Gallina text defining the *measured* deviation configuration.
+
+    record_ctor_fields: list of (field_name, finding_id or None).  A switch is ON iff its finding is listed with
+    status "open" AND the Spec function `spec_fn` (Gallina, case -> bool) fails on the finding's witness as just
+    observed on the implementation.  Findings with status "fixed: ..." (or not listed) force the switch OFF, so a
+    returning deviation shows up as a Spec failure + Model mismatch and is reported as a VIOLATION."""
+    status = {f["id"]: f.get("status", "") for f in findings}
+    lines = []
+    fields = []
+    for field, fid in record_ctor_fields:
+        if fid is not None and status.get(fid) == "open" and fid in witness_terms:
+            lines.append(f"Definition pv_w_{fid} := {witness_terms[fid]}.")
+            fields.append(f"{field} := negb (({spec_fn}) pv_w_{fid})")
+        else:
+            fields.append(f"{field} := false")
+    lines.append(f"Definition {name} := {{| " + "; ".join(fields) + " |}.")
+    return "\n".join(lines)
 
 
 def load_corpus(prop_id, stream_name):
@@ -431,7 +497,8 @@ def _stream_pass(ctx, prop, stream, findings, budget, focus, tag, stats):
     if len(obs) != len(cases):
         raise RuntimeError(f"{stream.name}: run_impl returned {len(obs)} observations for {len(cases)} cases")
     terms = [stream.to_coq(c, o) for c, o in zip(cases, obs)]
-    prelude = stream.prelude(ctx, fnd)
+    witness_terms = {cases[i]["__finding__"]: terms[i] for i in range(len(witnesses))}
+    prelude = stream.prelude(ctx, fnd, witness_terms)
     t0 = time.time()
     bad_model, bad_spec, attrib, errors = run_shards(ctx, stream, prelude, terms, tag)
     t_coq = time.time() - t0
@@ -520,7 +587,7 @@ def _run_check(prop, ctx, t_start, replay):
     ok, log = coq_build(ctx.coq_dir, prop.coq_targets)
     build_s = time.time() - t0
     vlog(f"coq build ok={ok} in {build_s:.1f}s")
-    cone = coq_cone(ctx.coq_dir, prop.property_file)
+    cone, deps = coq_cone(ctx.coq_dir, prop.property_file, want_deps=True)
     statements = count_statements(ctx.coq_dir, cone)
     discharged = len(statements) if ok else 0
     pa = {}
@@ -535,7 +602,8 @@ def _run_check(prop, ctx, t_start, replay):
         if not ok_models:
             broken.append("model files do not compile: " + log2[-400:])
         # which statements survive: those in files whose .vo exists
-        discharged = len([s for s in statements if os.path.exists(os.path.join(ctx.coq_dir, s.split(":")[0][:-2] + ".vo"))])
+        fresh = vo_fresh(ctx.coq_dir, cone, deps)
+        discharged = len([s for s in statements if s.split(":")[0] in fresh])
     else:
         ok_pa, pa, pa_raw = print_assumptions(ctx.coq_dir, prop.property_file)
         if not ok_pa:
